@@ -148,10 +148,20 @@ def run_scenario(events, flush=True):
             a['parked'] = None
         if a['outcome'] == 'driver':
             raise DriverError('scripted driver failure')
+        if a['outcome'] == 'linkerr':
+            # what RadioDriver.send_packet does when its queue stays full: report the error from the sender's thread,
+            # the packet is dropped
+            cf._link_error_cb('scripted: link error reported from inside send_packet')
+            return 'drop'
         if a['outcome'] == 'sentcb':
             raising_pk.add(id(pk))
     r.gate = gate
     res = {'blocked': None, 'leak': None}
+    story = []
+
+    def tell(e):
+        story.append(e)
+        r.ev_index = len(story) - 1
 
     def wait_parked_or_done(i):
         a = scn.acts[i]
@@ -175,7 +185,7 @@ def run_scenario(events, flush=True):
                 scn.cv.notify_all()
 
     try:
-        for ev in events:
+        for ei, ev in enumerate(events):
             k = ev[0]
             if k == 'start':
                 act = ev[1]
@@ -186,7 +196,7 @@ def run_scenario(events, flush=True):
                         continue            # not a woken-up timer (or its call is already waiting): nothing is called
                 i = len(scn.acts)
                 a = {'kind': act[0], 'status': WAIT, 'grant': threading.Event(), 'gate': threading.Event(),
-                     'outcome': None, 'exc': None, 'parked': None, 'tid': act[1] if act[0] == 'timer' else None}
+                     'outcome': None, 'exc': None, 'parked': None, 'tid': act[1] if act[0] == 'timer' else None, 'act': act}
                 scn.acts.append(a)
                 if act[0] == 'user':
                     def fn(act=act):
@@ -207,6 +217,8 @@ def run_scenario(events, flush=True):
                 else:
                     t = r.timers[act[1]]
                     fn = t.function         # the timer is marked as run when its call gets the lock (model: RunT)
+                if act[0] == 'user' and len(act[3]) > 30:
+                    tell(['send'] + list(act[1:]))      # raises before the lock
                 th = threading.Thread(target=body, args=(i, fn), daemon=True)
                 a['thread'] = th
                 th.start()
@@ -219,6 +231,8 @@ def run_scenario(events, flush=True):
                         a['parked'] = None
                     if a['tid'] is not None:
                         r.timers[a['tid']].status = drv.DONE
+                    else:
+                        tell(['send'] + list(a['act'][1:]))
                     a['grant'].set()
                     wait_parked_or_done(i)
             elif k == 'finish':
@@ -226,6 +240,13 @@ def run_scenario(events, flush=True):
                 if 0 <= i < len(scn.acts) and scn.acts[i]['parked'] == 'driver':
                     a = scn.acts[i]
                     a['outcome'] = outcome
+                    res.setdefault('effective_finish', []).append(ei)
+                    if outcome == 'driver' and a['tid'] is None:
+                        tell(['txfail', a['act'][1]])
+                    if outcome == 'linkerr':
+                        if a['tid'] is None:
+                            tell(['txfail', a['act'][1]])
+                        tell(['linkerr'])
                     with scn.cv:
                         a['parked'] = None
                     a['gate'].set()
@@ -234,6 +255,7 @@ def run_scenario(events, flush=True):
                             res['blocked'] = 'activity %d did not return from send_packet' % i
             elif k == 'base':
                 try:
+                    tell(ev[1])
                     r.step(ev[1])
                 except WouldBlock:
                     res['blocked'] = 'harness thread would block on the send lock during %r' % (ev[1],)
@@ -254,6 +276,9 @@ def run_scenario(events, flush=True):
         res.update({'out': [list(x) for x in r.out], 'statuses': statuses, 'holder': holder,
                     'locked': lock.locked(), 'timers': r.timer_obs(), 'excs': [a['exc'] for a in scn.acts],
                     'expanded': list(r.expanded)})
+        res['story'] = story
+        res['tx'] = r.tx
+        res['died'] = r.died
         # the lock is held although nobody is inside send_packet any more: leaked
         if lock.locked() and not in_driver and not res['blocked']:
             res['leak'] = 'send lock locked, no call of send_packet in progress'
@@ -269,6 +294,10 @@ def run_scenario(events, flush=True):
                 if a['parked'] == 'lock':
                     if a['tid'] is not None:
                         r.timers[a['tid']].status = drv.DONE
+                    else:
+                        tell(['send'] + list(a['act'][1:]))
+                    with scn.cv:
+                        a['parked'] = None
                     a['grant'].set()
                     wait_parked_or_done(i)
                     if a['parked'] == 'driver':
@@ -279,6 +308,7 @@ def run_scenario(events, flush=True):
             n0 = len(r.out)
             pending_before = [t.tid for t in r.timers if t.status in (drv.ARMED, drv.COMMITTED)]
             try:
+                tell(['flushall'])
                 r.step(['flushall'])
                 res['flush'] = {'live_timers': pending_before, 'retransmissions': [list(x) for x in r.out[n0:]],
                                 'locked_after': lock.locked()}
